@@ -334,7 +334,7 @@ def judge(R, ev, w, wm):
         got = ev[k].split(":")[0] if k < len(ev) else "-"
         want = exp[k].split(":")[0] if k < len(exp) else "-"
         what = "events %s, a conforming receiver reports %s (rule %s)" % (ev, exp, R.rule)
-        if want == "proto" and got == "toobig":
+        if want == "proto" and got == "toobig" and R.rule == "len64-msb":
             return what, {"kind": "wrong-failure", "rule": R.rule, "impl": got}
         if want == "proto" and got != "PANIC":
             return what, {"kind": "accepted-violation", "rule": R.rule}
